@@ -100,6 +100,10 @@ func (e *Engine) VerifyFunc(key string) (res *FnResult) {
 	for i, fv := range fn.FreeVars {
 		v := c.freshValue(fv.Type(), "fv$"+fv.Name())
 		fr.free = append(fr.free, v)
+		if sc, ok := v.(Sc); ok {
+			// the address of a captured variable is never nil
+			c.vc.Assert(Not(Eq(sc.T, IntLit(0))))
+		}
 		_ = i
 	}
 	c.regexGlobalFacts(st)
@@ -122,6 +126,7 @@ func (e *Engine) VerifyFunc(key string) (res *FnResult) {
 	c.setupOG(fr, st)
 	c.assertAll(fr)
 	c.hookedAll(fr)
+	c.ownVars(fr)
 	c.runFunction(fr, st)
 	// postconditions
 	var retPCs []Term
